@@ -19,6 +19,10 @@ BA = "http://u:p@h.com:81/d/e?q=1#f"
 BN = "/d/e?q=1#f"
 
 
+class _Sub(str):
+    """a str subclass (multidict.istr, str-mixin enums, ... behave like this)"""
+
+
 class Route:
     __slots__ = ("name", "fn", "supplied", "kind")
 
@@ -144,6 +148,16 @@ def _(w):
     return impl.URL.build(scheme="http", host="h.com", path="/p", query=[(w, w), ("k", w)])
 
 
+@route("build_query_strsub", "build", lambda w: ([("query_pairs", [("k", w)], "form")], {"has_authority": True}))
+def _(w):
+    return impl.URL.build(scheme="http", host="h.com", path="/p", query={"k": _Sub(w)})
+
+
+@route("build_strsub_parts", "build", lambda w: ([("user", w, "decoded"), ("fragment", w, "decoded")], {"has_authority": True}))
+def _(w):
+    return impl.URL.build(scheme="http", host="h.com", user=_Sub(w), path="/p", fragment=_Sub(w))
+
+
 @route("build_fragment", "build", _one("fragment", "decoded", has_authority=True))
 def _(w):
     return impl.URL.build(scheme="http", host="h.com", path="/p", fragment=w)
@@ -260,6 +274,8 @@ def _q_routes():
         "list": (lambda w: [(w, w)], lambda w: ("query_pairs", [(w, w)], "form")),
         "tuple": (lambda w: ((w, "1"), ("k", w)), lambda w: ("query_pairs", [(w, "1"), ("k", w)], "form")),
         "multidict": (lambda w: MultiDict([(w, "1"), (w, w)]), lambda w: ("query_pairs", [(w, "1"), (w, w)], "form")),
+        "dict_strsub": (lambda w: {_Sub(w): _Sub(w), "k": [_Sub(w)]}, lambda w: ("query_pairs", [(w, w), ("k", w)] if w != "k" else [("k", "k")], "form")),
+        "list_strsub": (lambda w: [(_Sub(w), _Sub(w))], lambda w: ("query_pairs", [(w, w)], "form")),
     }
     for op in ("with_query", "extend_query", "update_query"):
         for fname, (mk, sup) in forms.items():
